@@ -417,6 +417,25 @@ Proof.
   rewrite E. cbn. exact F.
 Qed.
 
+(* Pool.disconnect as read from the source on this run compares pids; if that stops being the case this lemma - and with it the
+   property theorem C36_child_with_disconnect - no longer checks *)
+Lemma src_disconnect_checks_pid : disconnect_checks_pid = true.
+Proof. reflexivity. Qed.
+
+Theorem child_safe_all_ops : forall p q parent_ops child_ops,
+  let par := run (init p) parent_ops in
+  ccon par = None ->
+  Forall (own q) (log (run (fork par q) child_ops)).
+Proof. intros p q pops cops. exact (child_safe_with_disconnect p q pops cops src_disconnect_checks_pid). Qed.
+
+(* the child's db.disconnect() right after a fork with a pooled connection: the inherited object is parked, nothing is closed *)
+Lemma child_disconnect_parks :
+  let par := run (init 1) [OBegin; OQuery; OEnd] in
+  log (run (fork par 2) [ODisconnect]) = [] /\ forked (run (fork par 2) [ODisconnect]) = [((1, 1), Some 1)]
+  /\ pcon (run (fork par 2) [ODisconnect]) = None.
+Proof. vm_compute. repeat split; reflexivity. Qed.
+
+(* what an unchecked Pool.disconnect does (kept as a conditional lemma): *)
 (* as Pool.disconnect is now (no pid check): the child's db.disconnect() closes the connection object the parent created *)
 Lemma child_disconnect_witness :
   if disconnect_checks_pid then True
